@@ -21,7 +21,7 @@ from sqltie import DIALECT_CLASSES as CLASSES, has_group_with_derived, has_where
 # per-dialect deviations on statements of recorded classes (dialect, class) -> recorded C09 class
 DIALECT_VARIANT_CLASSES = {("clickhouse", "K-C01-4"): "K-C09-1", ("exasol", "K-C02-8"): "K-C09-2",
                            ("sqlite", "K-C01-4"): "K-C09-9", ("trino", "K-C01-4"): "K-C09-9", ("tsql", "K-C01-4"): "K-C09-9",
-                           ("exasol", "K-C01-7"): "K-C09-10", ("sqlite", "K-C01-7"): "K-C09-10", ("tsql", "K-C01-7"): "K-C09-10"}
+                           ("redshift", "K-C01-11"): "K-C09-11", ("exasol", "K-C01-7"): "K-C09-10", ("sqlite", "K-C01-7"): "K-C09-10", ("tsql", "K-C01-7"): "K-C09-10"}
 
 
 def main() -> int:
@@ -127,6 +127,7 @@ def main() -> int:
         keep = [i for i in range(len(par_recs)) if (i // 5) % 3 == seed() % 3 or par_meta[i][0] == "non-validating"]
         par_recs, par_meta = [par_recs[i] for i in keep], [par_meta[i] for i in keep]
     dist["set_operand_parenthesisation"] = len(par_recs)
+    par_defect, par_known = {}, []
     for (d, sql, wt, pat), x in zip(par_meta, t2tie.summaries(par_recs)):
         ck.count()
         if x.startswith("ERR:InvalidSyntax") or x.startswith("ERR:UnsupportedStatement"):
@@ -135,8 +136,24 @@ def main() -> int:
         got = x.split("#")[0]
         srt = lambda t: "R=" + ",".join(sorted(t.split(";W=")[0][2:].split(","))) + ";W=" + t.split(";W=")[1]
         if srt(got) != srt(wt):
-            spec_failures.append({"suite": "set-operand-parenthesisation", "dialect": d, "sql": sql, "tables": got, "spec": wt,
-                                  "detail": "operands parenthesised: %s" % (list(pat),)})
+            case = {"suite": "set-operand-parenthesisation", "dialect": d, "sql": sql, "tables": got, "spec": wt,
+                    "detail": "operands parenthesised: %s" % (list(pat),)}
+            if " where a in (" in sql and any(pat) and d != "non-validating":
+                # recorded class K-C01-12 (all sqlfluff dialects lose the same tables; the legacy analyzer is right): the dialects
+                # must still agree with each other
+                par_defect.setdefault(sql, {})[d] = got
+                par_known.append(case)
+            else:
+                spec_failures.append(case)
+    for sql, by_d in par_defect.items():
+        if len(set(by_d.values())) > 1:
+            spec_failures.append({"suite": "set-operand-parenthesisation", "sql": sql, "per_dialect": by_d,
+                                  "spec": "an accepted core statement means the same under every dialect (class K-C01-12: same deviation everywhere)"})
+    if par_known and "K-C09-8" in known_all and "K-C01-12" in known_all["K-C09-8"].get("classes", []):
+        ck.known("K-C09-8", "legacy analyzer right, every sqlfluff dialect loses a table: set operation with a parenthesised operand inside IN (...) "
+                            "(K-C01-12; %d statements of this run, e.g. %r)" % (len(par_known), par_known[0]["sql"]))
+    elif par_known:
+        spec_failures.append(par_known[0])
     # statements of the RECORDED defect classes of C01/C02 (which the generator above stays out of) and structural variants of
     # them: whatever the analysers answer there, C09 asks that they answer alike - the dialects among themselves, and the
     # legacy analyser at table level.  Where the legacy analyser is right and the sqlfluff side is not (the same defect seen
@@ -177,8 +194,11 @@ def main() -> int:
                     "spec": "an accepted core statement means the same under every dialect (and the legacy analyzer reports the same tables)"}
             if d == "non-validating" and cid.split("/")[0] in legacy_listed:
                 legacy_known.append(case)
-            elif d in ("clickhouse", "exasol", "sqlite", "trino", "tsql") and (d, cid.split("/")[0]) in DIALECT_VARIANT_CLASSES:
+            elif (d, cid.split("/")[0]) in DIALECT_VARIANT_CLASSES:
                 known_hits.setdefault(DIALECT_VARIANT_CLASSES[(d, cid.split("/")[0])], case)
+            elif d in ("exasol", "sqlite", "tsql") and (q.lstrip().lower().startswith("update ") or " then update set " in q.lower()) and a.split("#")[0] == b.split("#")[0] and len(a.split("#", 1)[1]) < len(b.split("#", 1)[1]):
+                # K-C09-10: these dialects lay the right-hand side of SET out as an expression: no column lineage for ANY update
+                known_hits.setdefault("K-C09-10", case)
             else:
                 spec_failures.append(case)
     if legacy_known and "K-C09-8" in known_all:
